@@ -2,3 +2,5 @@
 import AJ.Props.C03
 import AJ.Props.C03Doc
 import AJ.Props.C03MpDoc
+import AJ.Props.C03FDoc
+import AJ.Props.C03FMpDoc
